@@ -245,8 +245,8 @@ def batchK (mem len : Nat) (count : Option Nat) (fill : Bool) : Chk (Out (List N
 /-- one round of the `for slice in 0..count` loop: length of the produced column.
     `offset` before the round is `min slice extra` (it is incremented while `slice < extra`). -/
 def sliceColumn (len ips extra : Nat) (fill : Bool) (s : Nat) : Chk Nat := do
-  let start ← usize ((min s extra : Nat) + (s : Int) * ips)
-  let stop ← usize ((min (s + 1) extra : Nat) + ((s : Int) + 1) * ips)
+  let start ← usize ((min s extra + s * ips : Nat) : Int)               -- `offset + slice * items_per_slice`
+  let stop ← usize ((min (s + 1) extra + (s + 1) * ips : Nat) : Int)     -- `offset + (slice + 1) * items_per_slice`
   if start ≤ stop ∧ stop ≤ len then                               -- `&items[start..end]`
     pure (stop - start + (if fill && decide (s ≥ extra) then 1 else 0))
   else .panic
@@ -273,10 +273,10 @@ structure Pos where
 /-- `advance` over one character: `u16::saturating_add` -/
 def advanceChar (p : Pos) (c : Char) : Chk Pos :=
   if c = '\n' then do
-    let l ← u16 (min (p.line + 1) 65535)
+    let l ← u16 ((min (p.line + 1) 65535 : Nat) : Int)
     pure ⟨l, 0⟩
   else do
-    let k ← u16 (min (p.col + 1) 65535)
+    let k ← u16 ((min (p.col + 1) 65535 : Nat) : Int)
     pure ⟨p.line, k⟩
 
 def advance (p : Pos) : List Char → Chk Pos
@@ -287,7 +287,7 @@ def advance (p : Pos) : List Char → Chk Pos
 
 /-- `syntax_error`: an empty span is widened by one column (saturating) -/
 def widen (startCol endCol : Nat) : Chk Nat :=
-  if startCol = endCol then u16 (min (endCol + 1) 65535) else pure endCol
+  if startCol = endCol then u16 ((min (endCol + 1) 65535 : Nat) : Int) else pure endCol
 
 /-- the caret line of `render_debug_info`: `" ".repeat(start_col)`, `"^".repeat(end_col ⊖ start_col)` -/
 def caretLine (startCol endCol : Nat) : Chk (Out (Nat × Nat)) := do
@@ -322,7 +322,7 @@ def negStepLen (lo hi s : Int) : Chk Nat :=
 
 /-- `span.end_col += 1` on a `u16` -/
 def widen (startCol endCol : Nat) : Chk Nat :=
-  if startCol = endCol then u16 (endCol + 1) else pure endCol
+  if startCol = endCol then u16 ((endCol + 1 : Nat) : Int) else pure endCol
 
 /-- `" ".repeat(width)`: `Vec::with_capacity(width)` panics above `isize::MAX`, otherwise the
     allocation is as large as the template says -/
